@@ -133,6 +133,16 @@ Theorem C04_then_inside_a_literal_is_not_the_keyword : forall x content rest acc
 Proof. exact scan_then_through_literal. Qed.
 Print Assumptions C04_then_inside_a_literal_is_not_the_keyword.
 
+(** ... and the split is at the written `then`: conditions [c] that the scan passes (no EARLIER whitespace outside their literals
+    is followed by `then`, whitespace and a rest - [passes], which a literal never falsifies by the theorem above) and that end
+    outside a literal, then whitespace, `then`, whitespace and actions that start with a visible character, give exactly (c, actions) *)
+Theorem C04_split_at_the_written_then : forall c x w2 w3 y a,
+  c <> [] -> passes c (x :: w2 ++ s_then ++ w3 ++ y :: a) None true = true -> scan None c = None ->
+  ExprShape.ws_unicode x = true -> all_ws w2 -> w3 <> [] -> all_ws w3 -> ExprShape.ws_unicode y = false ->
+  scan_then (c ++ x :: w2 ++ s_then ++ w3 ++ y :: a) None [] true = Some (c, y :: a).
+Proof. exact scan_then_splits_at_the_written_then. Qed.
+Print Assumptions C04_split_at_the_written_then.
+
 (** the documented witness of the former finding: ` when X.a == "now then go" then X.b = 2; ` *)
 Example C04_when_then_example :
   split_when_then [32;119;104;101;110;32;88;46;97;32;61;61;32;34;110;111;119;32;116;104;101;110;32;103;111;34;32;116;104;101;110;32;88;46;98;32;61;32;50;59;32]
